@@ -1,5 +1,5 @@
 #!/bin/bash
-# usage: harmless_run.sh <lab made by checklib/lab.sh> <patch>...  : apply each behaviour-preserving patch (harmless/*/p?.diff) to the lab's repo clone, run all 20 quick checks, report alarms (none expected)
+# usage: harmless_run.sh <lab made by checklib/lab.sh> <patch>...  : apply each behaviour-preserving patch (harmless/*/p?.diff) to the lab's repo clone, run all 20 quick checks, report alarms (none expected) HARMLESS_PROPS="C08 C17" restricts the checks.
 LAB=$1; shift
 cd $LAB/verif
 for patch in "$@"; do
@@ -7,7 +7,7 @@ for patch in "$@"; do
   git -C $LAB/repo checkout -q -- . ; git -C $LAB/repo clean -fdq
   if ! git -C $LAB/repo apply $patch; then echo "RF $name: patch does not apply"; continue; fi
   alarms=""
-  for p in C01 C02 C03 C04 C05 C06 C07 C08 C09 C10 C11 C12 C13 C14 C15 C16 C17 C18 C19 C20; do
+  for p in ${HARMLESS_PROPS:-C01 C02 C03 C04 C05 C06 C07 C08 C09 C10 C11 C12 C13 C14 C15 C16 C17 C18 C19 C20}; do
     out=$(./check $p --quick 2>&1)
     if [ $? -ne 0 ]; then alarms="$alarms $p"; echo "$out" | grep -E "VIOLATION|FAIL" | head -3 | sed "s/^/   [$name] /"; 
       for r in $(echo "$out" | grep -o 'replay=[^ ]*' | cut -d= -f2 | head -2); do mkdir -p ${RF_REPLAYS:-/tmp/rf-replays}/$name; cp $r ${RF_REPLAYS:-/tmp/rf-replays}/$name/ 2>/dev/null; done
